@@ -8,4 +8,5 @@ kf['findings']=[f for f in kf['findings'] if not (f['property']==prop and f['id'
 e=dict(property=prop,id=fid,status=status,what=what,match=match)
 if commit: e['commit']=commit
 kf['findings'].append(e)
+kf['lines']=[("fixed: property=%s %s %s"%(f['property'],f.get('commit','?'),f['what'])) if f['status']=='fixed' else ("known: property=%s %s %s"%(f['property'],f['id'],f['what'])) for f in kf['findings']]
 json.dump(kf,open('/verif/KNOWN_FINDINGS.json','w'),indent=1)
